@@ -100,13 +100,15 @@ impl InitiatorTimerConfig {
         {
             let real_delta_secs;
 
+            // This is the UAC side: if the UAS refreshes wait 10 seconds longer than the
+            // session interval before terminating, if we refresh do so before it expires
             let refresher = match se.refresher {
                 Refresher::Uas => {
-                    real_delta_secs = se.delta_secs - 10;
+                    real_delta_secs = se.delta_secs + 10;
                     Refresher::Uas
                 }
                 Refresher::Unspecified | Refresher::Uac => {
-                    real_delta_secs = se.delta_secs + 10;
+                    real_delta_secs = se.delta_secs - 10;
                     Refresher::Uac
                 }
             };
